@@ -1,116 +1,750 @@
-(* C18 - proofs about the protocol model model/Workers.v *)
+(* C18 - theorems about the protocol model model/Workers.v (invariant: proofs/WorkersInv.v) *)
 From Coq Require Import ZArith List Bool Lia Permutation Arith.
-From TV Require Import model.Workers.
+From TV Require Import model.Workers proofs.WorkersInv.
 Import ListNotations.
 Open Scope Z_scope.
 
-(* ------------------------------------------------------------------------- *)
-(* lists                                                                        *)
-(* ------------------------------------------------------------------------- *)
-Lemma upd_split {A} (l : list A) (n : nat) (x : A) :
-  nth_error l n = Some x ->
-  exists l1 l2, l = l1 ++ x :: l2 /\ forall y, upd n y l = l1 ++ y :: l2.
+Lemma kill_one_exited st : exists c, kill_one st = Exited c.
+Proof. destruct st; unfold kill_one; simpl; eauto. Qed.
+
+Lemma kill_one_keeps c : kill_one (Exited c) = Exited c.
+Proof. reflexivity. Qed.
+
+(* an exit code, once set, never changes *)
+Lemma exited_stable cfg e s s' w c :
+  step cfg e s = Some s' -> nth_error (ws s) w = Some (Exited c) -> nth_error (ws s') w = Some (Exited c).
 Proof.
-  revert n. induction l as [|h t IH]; intros [|n] H; simpl in H; try discriminate.
-  - inversion H; subst. exists [], t. split; [reflexivity|]. intros y. reflexivity.
-  - destruct (IH n H) as (l1 & l2 & E & U). exists (h :: l1), l2. split.
-    + simpl. rewrite <- E. reflexivity.
-    + intros y. simpl. rewrite U. reflexivity.
+  intros H X. destruct e; inv_step H; unfold set_par, set_pc, set_w; simpl; auto.
+  all: try solve [rewrite nth_error_upd; destruct (Nat.eqb_spec w0 w); [subst; congruence|assumption]].
+  all: try solve [erewrite map_nth_error by eassumption; reflexivity].
 Qed.
 
-Lemma upd_length {A} (l : list A) n x : length (upd n x l) = length l.
-Proof. revert n. induction l as [|h t IH]; intros [|n]; simpl; auto. Qed.
-
-Lemma nth_error_upd {A} (l : list A) n m x :
-  nth_error (upd n x l) m =
-  if Nat.eqb n m then match nth_error l m with Some _ => Some x | None => None end else nth_error l m.
+Lemma exited_stable_run cfg tr : forall s s' w c,
+  run cfg tr s = Some s' -> nth_error (ws s) w = Some (Exited c) -> nth_error (ws s') w = Some (Exited c).
 Proof.
-  revert n m. induction l as [|h t IH]; intros [|n] [|m]; simpl; auto.
-  - destruct (Nat.eqb n m); reflexivity.
-Qed.
-
-Lemma flat_map_nil_length {A B} (f : A -> list B) l : length (flat_map f l) = 0%nat -> flat_map f l = [].
-Proof. intros H. apply length_zero_iff_nil. exact H. Qed.
-
-(* ------------------------------------------------------------------------- *)
-(* reachability                                                                 *)
-(* ------------------------------------------------------------------------- *)
-Inductive reachable (cfg : config) : state -> Prop :=
-| reach_init : forall n, reachable cfg (init n)
-| reach_step : forall s e s', reachable cfg s -> step cfg e s = Some s' -> reachable cfg s'.
-
-Lemma reachable_run cfg tr : forall s s', reachable cfg s -> run cfg tr s = Some s' -> reachable cfg s'.
-Proof.
-  induction tr as [|e tr IH]; intros s s' R H; simpl in H.
+  induction tr as [|e tr IH]; intros s s' w c H X; simpl in H.
   - inversion H; subst; assumption.
   - destruct (step cfg e s) as [s1|] eqn:E; [|discriminate].
-    eapply IH; [|exact H]. eapply reach_step; eauto.
+    eapply IH; [exact H|]. eapply exited_stable; eauto.
 Qed.
 
-Lemma run_app cfg tr1 : forall tr2 s,
-  run cfg (tr1 ++ tr2) s = match run cfg tr1 s with Some s1 => run cfg tr2 s1 | None => None end.
+Lemma has_failed_stable cfg tr s s' : run cfg tr s = Some s' -> has_failed s -> has_failed s'.
+Proof. intros H (w & c & X & N). exists w, c. split; [eapply exited_stable_run; eauto|assumption]. Qed.
+
+Lemma no_exit_back cfg e s s' : step cfg e s = Some s' -> no_exit s' -> no_exit s.
+Proof. intros H N w c X. apply (N w c). eapply exited_stable; eauto. Qed.
+
+Lemma existsb_bad_exit l : existsb bad_exit l = true -> exists w c, nth_error l w = Some (Exited c) /\ c <> 0.
 Proof.
-  induction tr1 as [|e tr1 IH]; intros tr2 s; simpl; [reflexivity|].
-  destruct (step cfg e s); [apply IH|reflexivity].
+  induction l as [|a l IH]; simpl; [discriminate|]. intros H. apply orb_true_iff in H. destruct H as [H|H].
+  - destruct a; simpl in H; try discriminate. exists 0%nat, code. split; [reflexivity|].
+    apply negb_true_iff in H. apply Z.eqb_neq in H. assumption.
+  - destruct (IH H) as (w & c & X & N). exists (S w), c. split; assumption.
 Qed.
 
-(* case analysis of one step: every guard becomes an equation, the successor an explicit record *)
-Ltac inv_step H :=
-  unfold step in H;
-  repeat match type of H with
-         | context [match ?x with _ => _ end] => destruct x eqn:?; try discriminate H
-         | context [if ?x then _ else _] => destruct x eqn:?; try discriminate H
-         end;
-  inversion H; subst; clear H.
+Ltac no_exit_contra NE :=
+  exfalso;
+  match goal with
+  | Hn : nth_error (ws ?s) ?w = Some _ |- _ =>
+      solve [eapply (NE w); simpl; rewrite nth_error_upd, Nat.eqb_refl, Hn; reflexivity]
+  end.
 
-Ltac split_ws :=
-  repeat match goal with
-         | Hn : nth_error (ws ?s) ?w = Some ?st |- _ =>
-             let l1 := fresh "l1" in let l2 := fresh "l2" in
-             let Hws := fresh "Hws" in let Hupd := fresh "Hupd" in
-             destruct (upd_split _ _ _ Hn) as (l1 & l2 & Hws & Hupd); clear Hn;
-             try rewrite !Hupd; rewrite Hws in *
-         end.
+(* collected + queued games + games being played + queued ids + todo = N while no worker has exited *)
+Lemma count_invariant_l cfg s : reachable cfg s -> no_exit s ->
+  (length (collected (par s)) + length (game_ids s) + length (playing_ids s) + length (cmd_ids s)
+   + todo (par s) = target (par s))%nat.
+Proof.
+  induction 1 as [n|s e s' R IH H]; intros NE.
+  - unfold init, game_ids, playing_ids, cmd_ids; simpl.
+    assert (P : flat_map (fun st => match st with Playing i => [i] | _ => [] end) (repeat Starting n) = []).
+    { clear. induction n; simpl; auto. }
+    rewrite P. reflexivity.
+  - specialize (IH (no_exit_back _ _ _ _ H NE)).
+    pose proof (inv_reachable _ _ R) as I.
+    destruct e; inv_step H; unfold set_par, set_pc, set_w in *.
+    1-4: destruct (inv_clean s I) as (G0 & P0 & C0 & T0); [rewrite Heqo; auto|];
+         unfold game_ids, playing_ids, cmd_ids in *; simpl in *; rewrite ?G0, ?P0, ?C0; simpl; lia.
+    all: try solve [no_exit_contra NE].
+    all: try solve [crunch].
+    all: destruct (ws s) as [|a l0] eqn:W;
+      [crunch; rewrite W in *; simpl in *; lia | exfalso; destruct (kill_one_exited a) as (c & K); apply (NE 0%nat c); simpl; rewrite K; reflexivity].
+Qed.
 
 (* ------------------------------------------------------------------------- *)
-(* the invariant                                                                *)
+(* exactly N, distinct, nothing carried over                                    *)
 (* ------------------------------------------------------------------------- *)
-Definition cnt (i : Z) (s : state) : nat := count_occ Z.eq_dec (all_ids s) i.
-Definition lo (s : state) : Z := next_id (par s) - Z.of_nat (target (par s) - todo (par s)).
-Definition in_request (c : pc_t) : Prop := c = PFilling \/ c = PWaiting \/ c = PStuck.
+Lemma count_le_1_nodup (l : list Z) : (forall i, (count_occ Z.eq_dec l i <= 1)%nat) -> NoDup l.
+Proof. intros H. apply (NoDup_count_occ Z.eq_dec). exact H. Qed.
 
-Record Inv (s : state) : Prop := {
-  inv_cnt : forall i, (cnt i s <= 1)%nat;
-  inv_rng : forall i, (cnt i s >= 1)%nat -> lo s <= i < next_id (par s);
-  inv_len : (length (all_ids s) + todo (par s) <= target (par s))%nat;
-  inv_run : outcome (par s) = ORunning <-> in_request (pc (par s));
-  inv_short : outcome (par s) = ORunning -> (length (collected (par s)) < target (par s))%nat;
-  inv_ret : outcome (par s) = OReturned -> length (collected (par s)) = target (par s);
-  inv_none : outcome (par s) = ONone -> target (par s) = 0%nat;
-  inv_nonone : (pc (par s) = PBetween \/ in_request (pc (par s))) -> Forall (fun m => m <> None) (cmd s)
-}.
+Lemma ids_distinct_l cfg s : reachable cfg s -> NoDup (all_ids s).
+Proof. intros R. apply count_le_1_nodup. apply (inv_cnt _ (inv_reachable _ _ R)). Qed.
 
-Lemma playing_kill l :
-  flat_map (fun st => match st with Playing i => [i] | _ => [] end) (map kill_one l) = [].
+Lemma in_zseq base n i : In i (zseq base n) <-> base <= i < base + Z.of_nat n.
 Proof.
-  induction l as [|st l IH]; simpl; [reflexivity|]. rewrite IH.
-  destruct st; reflexivity.
+  unfold zseq. rewrite in_map_iff. split.
+  - intros (k & E & K). apply in_seq in K. lia.
+  - intros H. exists (Z.to_nat (i - base)). split; [lia|]. apply in_seq. lia.
 Qed.
 
-Ltac norm :=
-  unfold cnt, lo, all_ids, cmd_ids, game_ids, playing_ids in *; simpl in *;
-  repeat rewrite ?flat_map_app, ?count_occ_app, ?app_length, ?playing_kill in *; simpl in *.
+Lemma zseq_length base n : length (zseq base n) = n.
+Proof. unfold zseq. rewrite map_length, seq_length. reflexivity. Qed.
 
-Ltac inreq := unfold in_request in *;
-  repeat match goal with
-         | H : _ \/ _ |- _ => destruct H
-         | H : _ /\ _ |- _ => destruct H
-         end; try congruence.
-
-Lemma inv_init n : Inv (init n).
+Lemma returns_exactly_N_l cfg s : reachable cfg s -> outcome (par s) = OReturned ->
+  length (collected (par s)) = target (par s) /\
+  NoDup (collected (par s)) /\
+  Permutation (collected (par s)) (zseq (next_id (par s) - Z.of_nat (target (par s))) (target (par s))).
 Proof.
-  assert (P : flat_map (fun st => match st with Playing i => [i] | _ => [] end) (repeat Starting n) = []).
-  { induction n; simpl; auto. }
-  split; unfold init; norm; rewrite ?P; simpl; intros; try lia; try congruence; auto.
-  - split; intros; inreq.
+  intros R O. pose proof (inv_reachable _ _ R) as I.
+  destruct (inv_clean s I (or_intror O)) as (G0 & P0 & C0 & T0).
+  pose proof (inv_ret _ I O) as L.
+  assert (A : all_ids s = collected (par s)).
+  { unfold all_ids. rewrite G0, P0, C0. simpl. apply app_nil_r. }
+  pose proof (ids_distinct_l _ _ R) as ND. rewrite A in ND.
+  split; [exact L|]. split; [exact ND|].
+  apply NoDup_Permutation_bis; [exact ND|rewrite zseq_length; lia|].
+  intros i Hi. apply in_zseq.
+  assert (C : (cnt i s >= 1)%nat).
+  { unfold cnt. rewrite A. apply (count_occ_In Z.eq_dec) in Hi. lia. }
+  pose proof (inv_rng _ I i C) as Rg. unfold lo in Rg. rewrite T0 in Rg. lia.
 Qed.
+
+Lemma flat_map_nil_all {A B} (f : A -> list B) l : flat_map f l = [] -> forall x, In x l -> f x = [].
+Proof.
+  induction l as [|a l IH]; simpl; intros H x Hx; [contradiction|].
+  apply app_eq_nil in H. destruct H as [H1 H2]. destruct Hx as [<-|Hx]; auto.
+Qed.
+
+Lemma clean_between_requests_l cfg s : reachable cfg s ->
+  outcome (par s) = OReturned -> pc (par s) = PBetween ->
+  cmd s = [] /\ (forall m, In m (games s) -> m = GTorn) /\
+  (forall w id, nth_error (ws s) w <> Some (Playing id)) /\ todo (par s) = 0%nat.
+Proof.
+  intros R O B. pose proof (inv_reachable _ _ R) as I.
+  destruct (inv_clean s I (or_intror O)) as (G0 & P0 & C0 & T0).
+  pose proof (inv_nonone _ I (or_introl B)) as NN.
+  repeat split.
+  - unfold cmd_ids in C0. destruct (cmd s) as [|m c]; [reflexivity|].
+    inversion NN as [|? ? Hm _]; subst. destruct m as [i|]; [simpl in C0; discriminate|congruence].
+  - intros m Hm. pose proof (flat_map_nil_all _ _ G0 m Hm) as E. destruct m; [discriminate|reflexivity].
+  - intros w id X. apply nth_error_In in X. pose proof (flat_map_nil_all _ _ P0 _ X) as E. discriminate.
+  - exact T0.
+Qed.
+
+Lemma clean_intact cfg s : reachable cfg s -> outcome (par s) = OReturned -> pc (par s) = PBetween ->
+  ~ In GTorn (games s) -> games s = [].
+Proof.
+  intros R O B NT. destruct (clean_between_requests_l _ _ R O B) as (_ & G & _).
+  destruct (games s) as [|m g]; [reflexivity|]. exfalso. apply NT. rewrite (G m (or_introl eq_refl)). left; reflexivity.
+Qed.
+
+(* ------------------------------------------------------------------------- *)
+(* bounded detection of a failed worker                                          *)
+(* ------------------------------------------------------------------------- *)
+Definition no_ev (p : event -> bool) (tr : list event) : Prop := forall e, In e tr -> p e = false.
+Definition finished (s : state) : Prop :=
+  (outcome (par s) = OReturned /\ length (collected (par s)) = target (par s)) \/ outcome (par s) = ORaised.
+
+Lemma no_ev_cons p e tr : no_ev p (e :: tr) -> p e = false /\ no_ev p tr.
+Proof. intros H. split; [apply H; left; reflexivity|intros x Hx; apply H; right; assumption]. Qed.
+
+Lemma failed_existsb s : has_failed s -> existsb bad_exit (ws s) = true.
+Proof.
+  intros (w & c & X & N). apply existsb_exists. exists (Exited c). split; [eapply nth_error_In; eauto|].
+  simpl. apply negb_true_iff. apply Z.eqb_neq. assumption.
+Qed.
+
+(* outside a request only EBegin changes the outcome, the transcripts and the target *)
+Lemma outcome_stable cfg e s s' : Inv s -> step cfg e s = Some s' -> is_begin e = false ->
+  outcome (par s) <> ORunning ->
+  outcome (par s') = outcome (par s) /\ collected (par s') = collected (par s) /\ target (par s') = target (par s).
+Proof.
+  intros I H B O. pose proof (inv_run _ I) as Irun.
+  destruct e; try discriminate B; inv_step H; unfold set_par, set_pc, set_w; simpl; auto.
+  all: exfalso; apply O; apply Irun; unfold in_request; auto.
+Qed.
+
+Lemma finished_stable cfg tr : forall s s', reachable cfg s -> run cfg tr s = Some s' -> no_ev is_begin tr ->
+  finished s -> finished s'.
+Proof.
+  induction tr as [|e tr IH]; intros s s' R H NB F; simpl in H.
+  - inversion H; subst; assumption.
+  - destruct (step cfg e s) as [s1|] eqn:E; [|discriminate].
+    apply no_ev_cons in NB. destruct NB as [B NB].
+    assert (O : outcome (par s) <> ORunning) by (destruct F as [[F _]|F]; congruence).
+    destruct (outcome_stable _ _ _ _ (inv_reachable _ _ R) E B O) as (O1 & C1 & T1).
+    eapply IH; [eapply reach_step; eauto|exact H|exact NB|].
+    unfold finished in *. rewrite O1, C1, T1. exact F.
+Qed.
+
+Lemma in_app_torn (g : list gmsg) m : ~ In GTorn g -> m <> GTorn -> ~ In GTorn (g ++ [m]).
+Proof. intros A B C. apply in_app_or in C. destruct C as [C|[C|[]]]; [auto|congruence]. Qed.
+
+(* one step of a running request in which some worker has already failed *)
+Lemma failed_step cfg e s s' : Inv s -> step cfg e s = Some s' ->
+  is_begin e = false -> is_midput e = false ->
+  outcome (par s) = ORunning -> intact s -> has_failed s ->
+  outcome (par s') = ORaised \/ outcome (par s') = OReturned \/
+  (outcome (par s') = ORunning /\ intact s' /\
+   (outstanding s' + (if is_get e then 1 else 0) <= outstanding s)%nat).
+Proof.
+  intros I H B M O [NT NS] F. pose proof (failed_existsb _ F) as FB.
+  destruct e; try discriminate B; try discriminate M; inv_step H; unfold set_par, set_pc, set_w in *; simpl; auto.
+  all: try congruence.
+  all: right; right.
+  all: unfold intact, outstanding, cmd_ids, game_ids, playing_ids in *; simpl in *.
+  all: try (split; [assumption|]).
+  all: split_ws; eqs; simpl in *.
+  all: repeat rewrite ?flat_map_app, ?app_length, ?playing_kill in *; simpl in *.
+  all: try solve [exfalso; apply NT; left; reflexivity].
+  all: try solve [split; [split; [assumption || (try apply in_app_torn; try intros [?|?]; try congruence; auto)|congruence]|lia]].
+Qed.
+
+Lemma failure_detected_gen cfg tr : forall s s',
+  reachable cfg s -> run cfg tr s = Some s' ->
+  no_ev is_begin tr -> no_ev is_midput tr ->
+  outcome (par s) = ORunning -> intact s -> has_failed s ->
+  finished s' \/ (outcome (par s') = ORunning /\ (outstanding s' + gets tr <= outstanding s)%nat).
+Proof.
+  induction tr as [|e tr IH]; intros s s' R H NB NM O IT F; simpl in H.
+  - inversion H; subst. right. split; [assumption|]. unfold gets; simpl; lia.
+  - destruct (step cfg e s) as [s1|] eqn:E; [|discriminate].
+    apply no_ev_cons in NB. destruct NB as [B NB]. apply no_ev_cons in NM. destruct NM as [M NM].
+    pose proof (reach_step _ _ _ _ R E) as R1.
+    assert (F1 : has_failed s1) by (apply (has_failed_stable cfg [e] s s1); [simpl; rewrite E; reflexivity|assumption]).
+    destruct (failed_step _ _ _ _ (inv_reachable _ _ R) E B M O IT F) as [X|[X|(O1 & IT1 & L)]].
+    + left. eapply finished_stable; [exact R1|exact H|exact NB|]. right; assumption.
+    + left. eapply finished_stable; [exact R1|exact H|exact NB|]. left. split; [assumption|].
+      apply (inv_ret _ (inv_reachable _ _ R1) X).
+    + destruct (IH s1 s' R1 H NB NM O1 IT1 F1) as [Fin|(O2 & L2)]; [left; assumption|].
+      right. split; [assumption|]. unfold gets in *. simpl. destruct (is_get e); simpl; lia.
+Qed.
+
+(* bounded detection: once a worker has exited with a non-zero code, outstanding+1 further
+   completions of the parent's timed get are enough for the request to be over *)
+Lemma failure_detected_l cfg s tr s' :
+  reachable cfg s -> run cfg tr s = Some s' ->
+  no_ev is_begin tr -> no_ev is_midput tr ->
+  outcome (par s) = ORunning -> intact s -> has_failed s ->
+  (gets tr >= outstanding s + 1)%nat ->
+  finished s'.
+Proof.
+  intros R H NB NM O IT F G.
+  destruct (failure_detected_gen _ _ _ _ R H NB NM O IT F) as [Fin|(_ & L)]; [assumption|lia].
+Qed.
+
+(* in the tree as it is now every fault leaves a non-zero exit code behind *)
+Lemma fault_sets_failed e s s' : step current e s = Some s' -> is_fault e = true -> has_failed s'.
+Proof.
+  intros H Fl. destruct e; try discriminate Fl; inv_step H; unfold set_w; simpl.
+  all: match goal with Hn : nth_error (ws _) ?w = Some _ |- _ => exists w end.
+  all: eexists; simpl; (split; [rewrite nth_error_upd, Nat.eqb_refl; match goal with Hn : nth_error _ _ = _ |- _ => rewrite Hn end; reflexivity|]).
+  all: try (apply Z.eqb_neq; assumption); try discriminate.
+Qed.
+
+(* the parent raises only if a worker really failed *)
+Lemma raise_only_on_failure cfg s : reachable cfg s -> outcome (par s) = ORaised -> has_failed s.
+Proof.
+  induction 1 as [n|s e s' R IH H]; intros O; [discriminate|].
+  destruct (outcome (par s)) eqn:Os.
+  4: { apply (has_failed_stable cfg [e] s s'); [simpl; rewrite H; reflexivity|auto]. }
+  all: pose proof (inv_reachable _ _ R) as I; pose proof (inv_run _ I) as Irun.
+  all: destruct e; inv_step H; unfold set_par, set_pc, set_w in *; simpl in *; try congruence.
+  all: try solve [exfalso; assert (X : ORunning = ORunning) by reflexivity; rewrite <- Os in X at 1; apply Irun in X; unfold in_request in X; intuition congruence].
+  all: try solve [exfalso; assert (X : in_request (pc (par s))) by (unfold in_request; auto); apply Irun in X; congruence].
+  all: match goal with Hb : existsb bad_exit (ws _) = true |- _ => apply existsb_bad_exit in Hb; destruct Hb as (w & c & X & N) end.
+  all: exists w, c; split; [|assumption]; simpl; erewrite map_nth_error by eassumption; reflexivity.
+Qed.
+
+
+(* ------------------------------------------------------------------------- *)
+(* PRE-FIX variant (before 45b70e8): a swallowed exception makes the parent wait for ever *)
+(* ------------------------------------------------------------------------- *)
+(* one worker, one game requested, the engine factory raises *)
+Definition swallowed_schedule : list event := [EBegin 1; FRaise 0; EPut; EFillEnd].
+
+Definition sw_inv (s : state) : Prop :=
+  ws s = [Exited 0] /\ games s = [] /\ outcome (par s) = ORunning /\ todo (par s) = 0%nat /\
+  collected (par s) = [] /\ (pc (par s) = PFilling \/ pc (par s) = PWaiting).
+
+Lemma sw_inv_step e s s' : sw_inv s -> step prefix e s = Some s' -> sw_inv s'.
+Proof.
+  intros (W & G & O & T & C & P) H.
+  destruct s as [ws0 cmd0 games0 sh rd [pc0 oc tg td col nid]]; simpl in *; subst.
+  destruct e; simpl in H;
+    try (destruct w as [|[|w]]; simpl in H); try discriminate H;
+    destruct P as [P|P]; subst; simpl in H; try discriminate H;
+    try (destruct (c =? 0); discriminate H).
+  all: inversion H; subst; clear H; unfold sw_inv; simpl; auto 10.
+Qed.
+
+Lemma sw_inv_run tr : forall s s', sw_inv s -> run prefix tr s = Some s' -> sw_inv s'.
+Proof.
+  induction tr as [|e tr IH]; intros s s' J H; simpl in H.
+  - inversion H; subst; assumption.
+  - destruct (step prefix e s) as [s1|] eqn:E; [|discriminate]. eapply IH; [|exact H]. eapply sw_inv_step; eauto.
+Qed.
+
+Fixpoint spin (k : nat) : list event := match k with O => [] | S k' => ETimeout :: EFillEnd :: spin k' end.
+
+Lemma spin_gets k : gets (spin k) = k.
+Proof. induction k; unfold gets in *; simpl; auto. Qed.
+
+Lemma spin_runs k : forall s, sw_inv s -> pc (par s) = PWaiting -> exists s', run prefix (spin k) s = Some s'.
+Proof.
+  induction k as [|k IH]; intros s J P; simpl; [eauto|].
+  destruct J as (W & G & O & T & C & _).
+  destruct s as [ws0 cmd0 games0 sh rd [pc0 oc tg td col nid]]; simpl in *; subst. simpl.
+  apply IH; unfold sw_inv; simpl; auto 10.
+Qed.
+
+Lemma swallowed_exception_hangs_l :
+  exists s0, run prefix swallowed_schedule (init 1) = Some s0 /\
+    outcome (par s0) = ORunning /\
+    (forall tr s', run prefix tr s0 = Some s' -> outcome (par s') = ORunning /\ collected (par s') = []) /\
+    (forall k, exists tr s', gets tr = k /\ run prefix tr s0 = Some s').
+Proof.
+  eexists. split; [vm_compute; reflexivity|]. split; [reflexivity|].
+  assert (J : sw_inv {| ws := [Exited 0]; cmd := [Some 0]; games := []; shutdown := false; rdead := false;
+                        par := {| pc := PWaiting; outcome := ORunning; target := 1; todo := 0; collected := []; next_id := 1 |} |}).
+  { unfold sw_inv; simpl; auto 10. }
+  split.
+  - intros tr s' H. destruct (sw_inv_run _ _ _ J H) as (_ & _ & O & _ & C & _). auto.
+  - intros k. destruct (spin_runs k _ J eq_refl) as (s' & H). exists (spin k), s'. split; [apply spin_gets|exact H].
+Qed.
+
+(* the same schedule on the tree as it is now: the first timeout raises *)
+Example swallowed_schedule_now_raises :
+  match run current (swallowed_schedule ++ [ETimeout]) (init 1) with
+  | Some s => outcome (par s) = ORaised
+  | None => False
+  end.
+Proof. vm_compute. reflexivity. Qed.
+
+(* ------------------------------------------------------------------------- *)
+(* CURRENT tree: a worker killed in the middle of writing a transcript          *)
+(* ------------------------------------------------------------------------- *)
+Definition torn_schedule : list event :=
+  [EBegin 1; WReady 0; EPut; EFillEnd; WLock 0; WTake 0; FKillMidPut 0 (-9); ERecv].
+
+Lemma torn_put_hangs_l :
+  exists s0, run current torn_schedule (init 1) = Some s0 /\
+    has_failed s0 /\ outcome (par s0) = ORunning /\ pc (par s0) = PStuck /\
+    (forall e, step current e s0 = None).
+Proof.
+  eexists. split; [vm_compute; reflexivity|]. split; [|split; [reflexivity|split; [reflexivity|]]].
+  - exists 0%nat, (-9). split; [reflexivity|discriminate].
+  - intros e. destruct e; try reflexivity; try (destruct w as [|[|w]]; reflexivity).
+    all: unfold step; destruct (c =? 0); try reflexivity; destruct w as [|[|w]]; reflexivity.
+Qed.
+
+(* ------------------------------------------------------------------------- *)
+(* variant before 28ebc86 (unbounded join): a worker killed while it holds cmd's read lock *)
+(* ------------------------------------------------------------------------- *)
+Definition dead_lock_schedule : list event :=
+  [EBegin 1; WReady 0; WReady 1; EPut; EFillEnd; WLock 0; WTake 0; WLock 1; FKill 1 (-9);
+   WFinish 0; ERecv; EStop; EStopPut; EStopPut; EStopSet].
+
+Lemma dead_lock_holder_stop_hangs_l :
+  exists s0, run pre_stopfix dead_lock_schedule (init 2) = Some s0 /\
+    outcome (par s0) = OReturned /\ collected (par s0) = [0] /\ pc (par s0) = PJoining /\
+    (forall e, is_fault e = false -> step pre_stopfix e s0 = None).
+Proof.
+  eexists. split; [vm_compute; reflexivity|]. repeat split.
+  intros e NF. destruct e; try discriminate NF; try reflexivity; destruct w as [|[|[|w]]]; reflexivity.
+Qed.
+
+(* the same schedule on the tree as it is now: the join times out and stop() returns *)
+Example dead_lock_schedule_now_stops :
+  match run current (dead_lock_schedule ++ [EJoinTimeout]) (init 2) with
+  | Some s => pc (par s) = PStopped /\ ws s = [Exited (-9); Exited (-9)]
+  | None => False
+  end.
+Proof. vm_compute. auto. Qed.
+
+(* ------------------------------------------------------------------------- *)
+(* stop()                                                                       *)
+(* ------------------------------------------------------------------------- *)
+Definition is_stop_step (e : event) : bool :=
+  match e with EStopPut | EStopFull | EStopSet | EJoined | EJoinTimeout => true | _ => false end.
+Definition stop_steps (tr : list event) : nat := length (filter is_stop_step tr).
+(* how many of its own steps stop() still has to take *)
+Definition stop_rank (s : state) : nat :=
+  match pc (par s) with PStopPut k => k + 2 | PJoining => 1 | _ => 0 end.
+Definition stopping (s : state) : Prop := (exists k, pc (par s) = PStopPut k) \/ pc (par s) = PJoining.
+Definition stop_over (s : state) : Prop := pc (par s) = PStopped \/ pc (par s) = PStopFailed.
+
+(* stop() is never blocked: whatever the workers do, one of its own steps is enabled *)
+Lemma stop_never_blocked s : stopping s -> exists e s', is_stop_step e = true /\ step current e s = Some s'.
+Proof.
+  intros [(k & P)|P].
+  - destruct k as [|k].
+    + exists EStopSet. unfold step. rewrite P. eauto.
+    + destruct (Nat.ltb (length (cmd s)) (cmd_cap s)) eqn:L.
+      * exists EStopPut. unfold step. rewrite P, L. eauto.
+      * exists EStopFull. unfold step. rewrite P, L. eauto.
+  - exists EJoinTimeout. unfold step. rewrite P. simpl. eauto.
+Qed.
+
+Lemma stop_rank_step cfg e s s' : step cfg e s = Some s' -> stopping s ->
+  if is_stop_step e then (stop_rank s' < stop_rank s)%nat /\ (stopping s' \/ stop_over s')
+  else pc (par s') = pc (par s).
+Proof.
+  intros H St. unfold stopping, stop_over, stop_rank in *.
+  destruct e; inv_step H; unfold set_par, set_pc, set_w in *; simpl in *; auto.
+  all: try solve [destruct St as [(k0 & P)|P]; congruence].
+  all: try solve [split; [lia|eauto]].
+Qed.
+
+Lemma stop_over_step cfg e s s' : step cfg e s = Some s' -> stop_over s -> stop_over s'.
+Proof.
+  intros H Ov. unfold stop_over in *.
+  destruct e; inv_step H; unfold set_par, set_pc, set_w in *; simpl in *; auto; destruct Ov; congruence.
+Qed.
+
+Lemma stop_over_stable cfg tr : forall s s', run cfg tr s = Some s' -> stop_over s -> stop_over s'.
+Proof.
+  induction tr as [|e tr IH]; intros s s' H Ov; simpl in H.
+  - inversion H; subst; assumption.
+  - destruct (step cfg e s) as [s1|] eqn:E; [|discriminate]. eapply IH; [exact H|]. eapply stop_over_step; eauto.
+Qed.
+
+Lemma stop_bounded_gen cfg tr : forall s s', run cfg tr s = Some s' -> stopping s ->
+  stop_over s' \/ (stopping s' /\ (stop_rank s' + stop_steps tr <= stop_rank s)%nat).
+Proof.
+  induction tr as [|e tr IH]; intros s s' H St; simpl in H.
+  - inversion H; subst. right. split; [assumption|unfold stop_steps; simpl; lia].
+  - destruct (step cfg e s) as [s1|] eqn:E; [|discriminate].
+    pose proof (stop_rank_step _ _ _ _ E St) as X. unfold stop_steps in *. simpl.
+    destruct (is_stop_step e) eqn:Se.
+    + destruct X as (Lt & [St1|Ov]).
+      * destruct (IH _ _ H St1) as [Ov|(St' & L)]; [left; assumption|right; split; [assumption|simpl; lia]].
+      * left. eapply stop_over_stable; eauto.
+    + assert (St1 : stopping s1) by (unfold stopping in *; rewrite X; exact St).
+      assert (Rk : stop_rank s1 = stop_rank s) by (unfold stop_rank; rewrite X; reflexivity).
+      destruct (IH _ _ H St1) as [Ov|(St' & L)]; [left; assumption|right; split; [assumption|lia]].
+Qed.
+
+(* after at most stop_rank = workers + 2 of its own steps stop() is over *)
+Lemma stop_bounded_l cfg s tr s' : run cfg tr s = Some s' -> stopping s ->
+  (stop_steps tr >= stop_rank s)%nat -> stop_over s'.
+Proof.
+  intros H St G. destruct (stop_bounded_gen _ _ _ _ H St) as [Ov|(St' & L)]; [assumption|].
+  exfalso. unfold stopping, stop_rank in *. destruct St' as [(k & P)|P]; rewrite P in L; lia.
+Qed.
+
+Lemma forallb_nth {A} (f : A -> bool) l w x : forallb f l = true -> nth_error l w = Some x -> f x = true.
+Proof. intros F X. rewrite forallb_forall in F. apply F. eapply nth_error_In; eauto. Qed.
+
+Lemma forallb_kill l : forallb is_exited (map kill_one l) = true.
+Proof. induction l as [|a l IH]; simpl; [reflexivity|]. rewrite IH. destruct a; reflexivity. Qed.
+
+Lemma forallb_upd {A} (f : A -> bool) l w x : forallb f l = true -> f x = true -> forallb f (upd w x l) = true.
+Proof.
+  revert w. induction l as [|a l IH]; intros [|w] F X; simpl in *; auto.
+  - apply andb_true_iff in F. destruct F as [_ F]. rewrite X, F. reflexivity.
+  - apply andb_true_iff in F. destruct F as [Fa F]. rewrite Fa. simpl. apply IH; assumption.
+Qed.
+
+(* nothing at all is queued between two requests *)
+Lemma cmd_empty_between cfg s : reachable cfg s -> pc (par s) = PBetween -> outcome (par s) <> ORaised -> cmd s = [].
+Proof.
+  intros R B O. pose proof (inv_reachable _ _ R) as I.
+  assert (O' : outcome (par s) = ONone \/ outcome (par s) = OReturned).
+  { destruct (outcome (par s)) eqn:Os; auto; [|congruence].
+    exfalso. apply (inv_run _ I) in Os. unfold in_request in Os. intuition congruence. }
+  destruct (inv_clean s I O') as (_ & _ & C0 & _).
+  pose proof (inv_nonone _ I (or_introl B)) as NN.
+  unfold cmd_ids in C0. destruct (cmd s) as [|m c]; [reflexivity|].
+  inversion NN as [|? ? Hm _]; subst. destruct m as [i|]; [simpl in C0; discriminate|congruence].
+Qed.
+
+Record SInv (s : state) : Prop := {
+  k_raised : outcome (par s) = ORaised -> forallb is_exited (ws s) = true;
+  k_room : forall k, pc (par s) = PStopPut k -> outcome (par s) <> ORaised -> (length (cmd s) + k <= nworkers s)%nat;
+  k_failed : pc (par s) = PStopFailed -> outcome (par s) = ORaised;
+  k_stopped : pc (par s) = PStopped -> forallb is_exited (ws s) = true }.
+
+Lemma sinv_init n : SInv (init n).
+Proof. split; simpl; intros; discriminate. Qed.
+
+Ltac exited_contra :=
+  match goal with
+  | F : forallb is_exited (ws ?s) = true, X : nth_error (ws ?s) _ = Some _ |- _ =>
+      let Y := fresh in pose proof (forallb_nth _ _ _ _ F X) as Y; simpl in Y; discriminate Y
+  end.
+
+Lemma sinv_preserved cfg e s s' : reachable cfg s -> SInv s -> step cfg e s = Some s' -> SInv s'.
+Proof.
+  intros R [K1 K2 K3 K4] H. pose proof (inv_reachable _ _ R) as I. pose proof (inv_run _ I) as Irun.
+  pose proof (cmd_empty_between _ _ R) as CE.
+  destruct e; inv_step H; unfold set_par, set_pc, set_w, nworkers, cmd_cap in *; simpl in *.
+  all: split; unfold nworkers, cmd_cap in *; simpl in *; intros; try discriminate; try congruence; auto.
+  all: try solve [apply forallb_kill].
+  all: try solve [exfalso; match goal with X : ORunning = ORaised |- _ => discriminate X end].
+  all: try solve [repeat match goal with X : ?a = ?a -> _ |- _ => specialize (X eq_refl) end; exited_contra].
+  all: try solve [match goal with X : outcome _ = ORaised |- _ => specialize (K1 X) end; exited_contra].
+  all: try solve [match goal with X : pc _ = PStopped |- _ => specialize (K4 X) end; exited_contra].
+  all: eqs; rewrite ?upd_length, ?map_length, ?app_length in *; simpl in *.
+  all: try solve [match goal with X : PStopPut _ = PStopPut _ |- _ => inversion X; subst end;
+                  match goal with X : outcome _ <> ORaised |- _ => specialize (K2 _ eq_refl X) end; simpl in *; lia].
+  all: try solve [match goal with X : outcome _ <> ORaised |- _ => specialize (K2 _ eq_refl X) end; simpl in *; lia].
+  - match goal with X : outcome _ <> ORaised |- _ => rewrite (CE eq_refl X) end.
+    match goal with X : PStopPut _ = PStopPut _ |- _ => inversion X; subst end. simpl. lia.
+  - destruct (outcome (par s)) eqn:Os; try reflexivity; exfalso;
+      (assert (NR : outcome (par s) <> ORaised) by congruence); rewrite Os in NR;
+      specialize (K2 _ eq_refl NR); lia.
+Qed.
+
+Lemma sinv_reachable cfg s : reachable cfg s -> SInv s.
+Proof.
+  induction 1 as [n|s e s' R IH H]; [apply sinv_init|eapply sinv_preserved; eauto].
+Qed.
+
+(* when stop() is over - normally or with queue.Full - no worker process is left *)
+Lemma stop_over_all_exited cfg s : reachable cfg s -> stop_over s -> all_exited s.
+Proof.
+  intros R Ov. pose proof (sinv_reachable _ _ R) as [K1 K2 K3 K4].
+  assert (F : forallb is_exited (ws s) = true) by (destruct Ov as [P|P]; auto).
+  intros w st X. pose proof (forallb_nth _ _ _ _ F X) as E. destruct st; try discriminate E. eauto.
+Qed.
+
+(* stop() fails with queue.Full only after play_many raised *)
+Lemma stop_full_only_after_raise cfg s : reachable cfg s -> pc (par s) = PStopFailed -> outcome (par s) = ORaised.
+Proof. intros R P. apply (k_failed _ (sinv_reachable _ _ R) P). Qed.
+
+
+(* ------------------------------------------------------------------------- *)
+(* graceful shutdown: after a clean return the workers exit by themselves      *)
+(* ------------------------------------------------------------------------- *)
+Definition needs (st : wstate) : bool := match st with Starting | Idle | Reading => true | _ => false end.
+Definition wrank (st : wstate) : nat :=
+  match st with Starting => 4 | Idle => 3 | Reading => 2 | Playing _ => 5 | Done => 1 | Exited _ => 0 end.
+Definition nones_left (s : state) : nat := match pc (par s) with PStopPut k => k | _ => 0 end.
+Definition smeasure (s : state) : nat := (stop_rank s + list_sum (map wrank (ws s)))%nat.
+(* events of a shutdown in which nobody is killed and the join deadline is not needed *)
+Definition graceful (e : event) : bool :=
+  negb (is_kill e) && match e with EJoinTimeout => false | _ => true end.
+
+Record GInv (s : state) : Prop := {
+  g_stopping : stopping s;
+  g_rdead : rdead s = false;
+  g_noplay : playing_ids s = [];
+  g_nones : Forall (fun m => m = None) (cmd s);
+  g_need : (length (filter needs (ws s)) <= length (cmd s) + nones_left s)%nat;
+  g_room : (length (cmd s) + nones_left s <= nworkers s)%nat;
+  g_shut : pc (par s) = PJoining -> shutdown s = true }.
+
+Lemma filter_length_le {A} (f : A -> bool) l : (length (filter f l) <= length l)%nat.
+Proof. induction l as [|a l IH]; simpl; [lia|]. destruct (f a); simpl; lia. Qed.
+
+Lemma ginv_start cfg s s1 : reachable cfg s -> pc (par s) = PBetween -> outcome (par s) <> ORaised ->
+  rdead s = false -> step cfg EStop s = Some s1 -> GInv s1.
+Proof.
+  intros R B O RD H. pose proof (cmd_empty_between _ _ R B O) as CE.
+  pose proof (inv_reachable _ _ R) as I.
+  assert (O' : outcome (par s) = ONone \/ outcome (par s) = OReturned).
+  { destruct (outcome (par s)) eqn:Os; auto; [|congruence].
+    exfalso. apply (inv_run _ I) in Os. unfold in_request in Os. intuition congruence. }
+  destruct (inv_clean s I O') as (_ & P0 & _ & _).
+  inv_step H. unfold set_pc, set_par, nworkers. split; unfold stopping, nones_left, playing_ids, nworkers in *; simpl; eauto.
+  - rewrite CE. constructor.
+  - rewrite CE. simpl. apply filter_length_le.
+  - rewrite CE. simpl. lia.
+  - discriminate.
+Qed.
+
+Ltac gcrunch :=
+  unfold stopping, nones_left, smeasure, stop_rank, playing_ids, nworkers, cmd_cap in *; simpl in *;
+  split_ws; eqs; simpl in *;
+  repeat rewrite ?flat_map_app, ?filter_app, ?map_app, ?list_sum_app, ?app_length in *; simpl in *.
+
+Lemma g_step cfg e s s' : GInv s -> step cfg e s = Some s' -> graceful e = true ->
+  (GInv s' \/ pc (par s') = PStopped) /\ (smeasure s' < smeasure s)%nat.
+Proof.
+  intros [St RD NP NN Nd Rm Sh] H Gr.
+  destruct e; try discriminate Gr; inv_step H; unfold set_par, set_pc, set_w in *.
+  all: try solve [exfalso; destruct St as [(k0 & P)|P]; congruence].
+  all: gcrunch.
+  all: try solve [exfalso; lia].
+  all: try solve [exfalso; apply app_eq_nil in NP; destruct NP as [_ NP]; discriminate NP].
+  all: try solve [exfalso; inversion NN; subst; discriminate].
+  all: try (split; [|lia]).
+  all: try solve [right; reflexivity].
+  all: left; split; gcrunch; eauto; try lia; try discriminate; try congruence.
+  all: try solve [apply Forall_app; split; [assumption|constructor; [reflexivity|constructor]]].
+  all: try solve [inversion NN; subst; assumption].
+Qed.
+
+Lemma forallb_false_nth {A} (f : A -> bool) l : forallb f l = false -> exists w x, nth_error l w = Some x /\ f x = false.
+Proof.
+  induction l as [|a l IH]; simpl; [discriminate|]. intros H. destruct (f a) eqn:Fa.
+  - destruct (IH H) as (w & x & X & Fx). exists (S w), x. auto.
+  - exists 0%nat, a. auto.
+Qed.
+
+Lemma existsb_reading_nth l : existsb is_reading l = true -> exists w, nth_error l w = Some Reading.
+Proof.
+  induction l as [|a l IH]; simpl; [discriminate|]. intros H. apply orb_true_iff in H. destruct H as [H|H].
+  - destruct a; try discriminate H. exists 0%nat. reflexivity.
+  - destruct (IH H) as (w & X). exists (S w). exact X.
+Qed.
+
+Lemma needs_nth l w st : nth_error l w = Some st -> needs st = true -> (length (filter needs l) >= 1)%nat.
+Proof.
+  intros X N. apply nth_error_In in X. assert (I : In st (filter needs l)) by (apply filter_In; auto).
+  destruct (filter needs l); [contradiction|simpl; lia].
+Qed.
+
+(* no deadlock: while stop() has not returned, somebody can move without any kill and without the deadline *)
+Lemma g_progress cfg s : GInv s -> exists e s', graceful e = true /\ is_fault e = false /\ step cfg e s = Some s'.
+Proof.
+  intros [St RD NP NN Nd Rm Sh]. unfold nones_left, nworkers in *.
+  destruct St as [(k & P)|P]; rewrite P in *.
+  - destruct k as [|k].
+    + exists EStopSet. unfold step. rewrite P. eauto.
+    + exists EStopPut. unfold step, cmd_cap, nworkers. rewrite P.
+      assert (L : Nat.ltb (length (cmd s)) (2 * length (ws s)) = true) by (apply Nat.ltb_lt; lia).
+      rewrite L. eauto.
+  - specialize (Sh eq_refl). destruct (forallb is_exited (ws s)) eqn:F.
+    + exists EJoined. unfold step. rewrite P, F. eauto.
+    + destruct (forallb_false_nth _ _ F) as (w & st & X & NE).
+      assert (TK : forall w', nth_error (ws s) w' = Some Reading -> exists e s', graceful e = true /\ is_fault e = false /\ step cfg e s = Some s').
+      { intros w' X'. pose proof (needs_nth _ _ _ X' eq_refl) as N1.
+        destruct (cmd s) as [|m c] eqn:C; [simpl in *; lia|].
+        exists (WTake w'). unfold step. rewrite X', C. eauto. }
+      destruct st; try discriminate NE.
+      * exists (WReady w). unfold step. rewrite X. eauto.
+      * destruct (existsb is_reading (ws s)) eqn:ER.
+        -- destruct (existsb_reading_nth _ ER) as (w' & X'). apply (TK w' X').
+        -- exists (WLock w). unfold step. rewrite X, RD, ER. simpl. eauto.
+      * apply (TK w X).
+      * exfalso. unfold playing_ids in NP. apply nth_error_In in X.
+        pose proof (flat_map_nil_all _ _ NP _ X) as E. discriminate E.
+      * exists (WExit w). unfold step. rewrite X, Sh. eauto.
+Qed.
+
+Lemma g_run cfg tr : forall s s', GInv s -> run cfg tr s = Some s' -> (forall e, In e tr -> graceful e = true) ->
+  (GInv s' \/ pc (par s') = PStopped) /\ (length tr + smeasure s' <= smeasure s)%nat.
+Proof.
+  induction tr as [|e tr IH]; intros s s' G H Gr; simpl in H.
+  - inversion H; subst. split; [left; assumption|simpl; lia].
+  - destruct (step cfg e s) as [s1|] eqn:E; [|discriminate].
+    destruct (g_step _ _ _ _ G E (Gr e (or_introl eq_refl))) as ([G1|P1] & Lt).
+    + destruct (IH _ _ G1 H (fun x Hx => Gr x (or_intror Hx))) as (D & L). split; [assumption|simpl; lia].
+    + (* stop() has returned: nothing graceful is left to do for the parent; workers are all exited *)
+      destruct tr as [|e2 tr]; simpl in H.
+      * inversion H; subst. split; [right; assumption|simpl; lia].
+      * exfalso. destruct (step cfg e2 s1) as [s2|] eqn:E2; [|discriminate].
+        pose proof (Gr e2 (or_intror (or_introl eq_refl))) as G2.
+        (* from PStopped with every worker exited no graceful event is enabled *)
+        assert (F : forallb is_exited (ws s1) = true).
+        { destruct e; inv_step E; unfold set_par, set_pc, set_w in *; simpl in *;
+            try assumption; try apply forallb_kill; try discriminate P1;
+            exfalso; destruct G as [[(k0 & P)|P] _ _ _ _ _ _]; congruence. }
+        destruct e2; try discriminate G2; inv_step E2; try congruence;
+          match goal with X : nth_error (ws s1) _ = Some _ |- _ =>
+            let Y := fresh in pose proof (forallb_nth _ _ _ _ F X) as Y; discriminate Y end.
+Qed.
+
+Lemma smeasure_bound s : (smeasure s <= stop_rank s + 5 * nworkers s)%nat.
+Proof.
+  unfold smeasure, nworkers. assert (L : (list_sum (map wrank (ws s)) <= 5 * length (ws s))%nat).
+  { induction (ws s) as [|a l IH]; simpl; [lia|]. destruct a; simpl; lia. }
+  lia.
+Qed.
+
+(* workers exit on shutdown: after a request returned normally (or before the first one), if no
+   worker died holding cmd's read lock, stop() can neither fail nor get stuck, every step anybody
+   takes brings the shutdown closer to its end, and it ends with every worker exited - all that
+   without a kill and without the join deadline *)
+Lemma stop_graceful_l cfg s s1 tr s' :
+  reachable cfg s -> pc (par s) = PBetween -> outcome (par s) <> ORaised -> rdead s = false ->
+  step cfg EStop s = Some s1 -> run cfg tr s1 = Some s' ->
+  (forall e, In e tr -> graceful e = true) ->
+  (length tr <= 6 * nworkers s + 2)%nat /\
+  pc (par s') <> PStopFailed /\
+  (pc (par s') = PStopped -> all_exited s') /\
+  (pc (par s') <> PStopped ->
+     exists e s2, graceful e = true /\ is_fault e = false /\ step cfg e s' = Some s2).
+Proof.
+  intros R B O RD H1 H Gr. pose proof (ginv_start _ _ _ R B O RD H1) as G1.
+  destruct (g_run _ _ _ _ G1 H Gr) as (D & L).
+  assert (R' : reachable cfg s') by (eapply reachable_run; [eapply reach_step; eauto|exact H]).
+  split; [|split; [|split]].
+  - pose proof (smeasure_bound s1) as Bd. inv_step H1. unfold set_pc, set_par, stop_rank, nworkers in *. simpl in *. lia.
+  - destruct D as [[[(k & P)|P] _ _ _ _ _ _]|P]; congruence.
+  - intros P. apply (stop_over_all_exited _ _ R'). left; assumption.
+  - intros NP. destruct D as [G|P]; [|congruence]. apply g_progress. assumption.
+Qed.
+
+Example stop_graceful_hyps :
+  exists s s1, run current [EBegin 1; WReady 0; WReady 1; EPut; EFillEnd; WLock 1; WTake 1; WFinish 1; ERecv] (init 2) = Some s /\
+    pc (par s) = PBetween /\ outcome (par s) = OReturned /\ rdead s = false /\ step current EStop s = Some s1 /\
+    exists s', run current [EStopPut; WLock 0; WTake 0; EStopPut; EStopSet; WExit 0; WLock 1; WTake 1; WExit 1; EJoined] s1 = Some s' /\
+      pc (par s') = PStopped /\ ws s' = [Exited 0; Exited 0].
+Proof. eexists. eexists. split; [vm_compute; reflexivity|]. repeat split. eexists. split; [vm_compute; reflexivity|]. split; reflexivity. Qed.
+
+(* ------------------------------------------------------------------------- *)
+(* stop(): summary statement                                                    *)
+(* ------------------------------------------------------------------------- *)
+Lemma stop_terminates_workers_l s tr s' :
+  reachable current s -> stopping s -> run current tr s = Some s' ->
+  (* never blocked: one of stop()'s own steps is always enabled *)
+  (exists e s2, is_stop_step e = true /\ step current e s = Some s2) /\
+  (* after workers+2 of its own steps it is over *)
+  ((stop_steps tr >= stop_rank s)%nat -> stop_over s') /\
+  (* and then no worker process is left *)
+  (stop_over s' -> all_exited s') /\
+  (* queue.Full can only come out of stop() after play_many raised *)
+  (pc (par s') = PStopFailed -> outcome (par s') = ORaised).
+Proof.
+  intros R St H. assert (R' : reachable current s') by (eapply reachable_run; eauto).
+  split; [apply stop_never_blocked; assumption|]. split; [intros G; eapply stop_bounded_l; eauto|].
+  split; [apply (stop_over_all_exited current); assumption|apply (stop_full_only_after_raise current); assumption].
+Qed.
+
+(* ------------------------------------------------------------------------- *)
+(* the hypotheses of the implication theorems are satisfiable by non-trivial states *)
+(* ------------------------------------------------------------------------- *)
+Definition ex_pre : list event :=
+  [EBegin 3; WReady 0; WReady 1; EPut; EPut; EPut; EFillEnd; WLock 0; WTake 0; WLock 1; WTake 1].
+
+(* two workers are playing ids 0 and 1, id 2 is queued: nobody has exited, 0+0+2+1+0 = 3 *)
+Example count_invariant_hyps :
+  exists s, run current ex_pre (init 2) = Some s /\ no_exit s /\ playing_ids s = [0; 1] /\ cmd_ids s = [2].
+Proof.
+  eexists. split; [vm_compute; reflexivity|]. split; [|split; reflexivity].
+  intros w c. destruct w as [|[|[|w]]]; simpl; discriminate.
+Qed.
+
+(* worker 1 raises while it plays id 1; the survivor delivers ids 0 and 2; the third get times out and raises *)
+Example failure_detected_hyps :
+  exists s, run current (ex_pre ++ [FRaise 1]) (init 2) = Some s /\
+    outcome (par s) = ORunning /\ intact s /\ has_failed s /\ outstanding s = 2%nat /\
+    let tr := [WFinish 0; ERecv; WLock 0; WTake 0; EFillEnd; WFinish 0; ERecv; EFillEnd; ETimeout] in
+    no_ev is_begin tr /\ no_ev is_midput tr /\ gets tr = 3%nat /\
+    exists s', run current tr s = Some s' /\ outcome (par s') = ORaised /\ collected (par s') = [0; 2].
+Proof.
+  eexists. split; [vm_compute; reflexivity|]. split; [reflexivity|]. split; [split; [intros []|discriminate]|].
+  split; [exists 1%nat, 1; split; [reflexivity|discriminate]|]. split; [reflexivity|].
+  split; [intros e He; simpl in He; repeat (destruct He as [<-|He]; [reflexivity|]); contradiction|].
+  split; [intros e He; simpl in He; repeat (destruct He as [<-|He]; [reflexivity|]); contradiction|].
+  split; [reflexivity|]. eexists. split; [vm_compute; reflexivity|]. split; reflexivity.
+Qed.
+
+(* a request that returns normally although a worker was killed: the survivor plays everything *)
+Example returns_exactly_N_hyps :
+  exists s, run current [EBegin 2; WReady 0; WReady 1; FKill 1 (-9); EPut; EPut; EFillEnd; WLock 0; WTake 0; WFinish 0;
+                         ERecv; EFillEnd; WLock 0; WTake 0; WFinish 0; ERecv] (init 2) = Some s /\
+    outcome (par s) = OReturned /\ pc (par s) = PBetween /\ collected (par s) = [0; 1] /\ has_failed s.
+Proof.
+  eexists. split; [vm_compute; reflexivity|]. repeat split. exists 1%nat, (-9). split; [reflexivity|discriminate].
+Qed.
+
+(* stop() after play_many raised can fail with queue.Full (two workers, three games, both factories raise) *)
+Example stop_full_after_raise :
+  match run current [EBegin 3; FRaise 0; FRaise 1; EPut; EPut; EPut; EFillEnd; ETimeout; EStop; EStopPut; EStopFull] (init 2) with
+  | Some s => outcome (par s) = ORaised /\ pc (par s) = PStopFailed /\ ws s = [Exited 1; Exited 1]
+  | None => False
+  end.
+Proof. vm_compute. auto. Qed.
